@@ -170,7 +170,7 @@ def comparable(case):
 
 
 def run(res, tier, seed, search=False, have_drv=True):
-    cases = SPECIAL + gen_cases(tier, seed, search)
+    cases = SPECIAL + C.load_case_corpus("C17", "io") + gen_cases(tier, seed, search)
     impl, model = run_all(cases, have_drv)
     # isolated runs: one process per case
     for c in REMOVE_EXEC:
